@@ -162,9 +162,20 @@ def clauses (prop : String) (cfg : NetCfg) (seen : List Nat := []) : St → List
 
 def check (prop : String) (inp out : List String) : Verdict :=
   match inp with
-  | "auth" :: cfgTok :: evs =>
+  | "auth" :: cfgTok :: evs0 =>
+    -- `X:<id>#<dlc>`: a raw frame whose length code is above 8 (it cannot occur on classic CAN and the property does not
+    -- speak of it): whatever the code does with it - crash in the socket layer, drop it, report an error - is accepted,
+    -- EXCEPT crediting it (or anything else) to a unit: no signal, no status may come out of it.  For the model it is a no-op.
+    let overlong := evs0.map (·.startsWith "X:")
+    let evs := evs0.map fun t => if t.startsWith "X:" then "O" else t
     match parseCfg? cfgTok, evs.mapM parseEv?, out.mapM parseOut? with
-    | some cfg, some es, some outs =>
+    | some cfg, some es, some outs0 =>
+      let badOverlong := ((overlong.zip outs0).any fun (x, o) => x && !(o.signals.isEmpty && o.statuses.isEmpty && o.frames.isEmpty))
+      let outs := (overlong.zip outs0).map fun (x, o) => if x then (⟨[], [], [], false, false⟩ : ImplOut) else o
+      if badOverlong then
+        { agree := false, model := "a frame with a length code above 8 has no effect on any unit",
+          specFail := ["overlong_frame_credits_no_unit"] }
+      else
       if es.length != outs.length then .bad "one output per event" else
       let m := run cfg (init cfg) es
       let agree := (m.zip outs).all fun (a, b) =>
